@@ -184,8 +184,9 @@ def run(ctx, out):
             if inp["kind"] == "alloc":
                 s = inp["s"]
                 it = alloc_item("s%d" % n, rs.build_schedule(s), {"src": "direct"})
-                if it["s"] != s:
-                    raise tlc.MachineryError("projection of the real objects differs from the schedule they were built from: %s vs %s" % (it["s"], s))
+                if it["s"] != s and sum(1 for d in out.drift if d.startswith("real objects")) < 5:
+                    # C02 is judged on the projection of the very objects handed to the Allocator; a difference is drift
+                    out.drift.append("real objects built from a written schedule do not say what was written: %s vs %s" % (it["s"], s))
                 items.append(it)
                 out.add_case(("alloc", s), nontrivial=len(s) > 1 or any(el["k"] == "par" for el in s))
                 if s:
